@@ -82,9 +82,20 @@ def runSteps (steps : List Step) (v : Rat) : Rat × Rat :=
     if (st.exp == (1 : Int) && !st.inDerived) || (st.exp == (1 : Int) && zero == 0) then
       (okOr (db.convert st.cat st.fromU st.toU v) v, a * absR ratio + convMag db st.cat st.fromU st.toU v)
     else
-      let factor := okOr (powInt ratio st.exp) 1
+      -- repair e246554: with an offset the ratio is the quotient of the two units' base increments, each of
+      -- which cancels only against that unit's own offset
+      let qt := (qtOf st.cat).getD 0
+      let ratio' := okOr (unitRatio theEnv qt st.fromU st.toU zero) ratio
+      let incCond := fun (u : Sym) =>
+        match db.getInfo qt u with
+        | .ok r =>
+          let b1 := r.toBase.eval 1
+          let b0 := r.toBase.eval 0
+          if b1 - b0 = 0 then (1 : Rat) else (absR b1 + absR b0) / absR (b1 - b0)
+        | .error _ => 1
+      let factor := okOr (powInt ratio' st.exp) 1
       let e : Rat := if st.exp < (0 : Int) then -((st.exp : Int) : Rat) else ((st.exp : Int) : Rat)
-      let cond := if ratio = 0 then 1 else 1 + e * (absR one + absR zero) / absR ratio
+      let cond := if zero = 0 then 1 + e else 1 + e * (incCond st.fromU + incCond st.toU)
       (v * factor, a * absR factor + absR (v * factor) * cond)) (v, 0)
 
 def operandValues : Operand → List Rat
